@@ -94,7 +94,15 @@ class CoreBench:
         geom = module.geom_settings
         self.geom = geom
         self.timing = module.timing_settings
-        phy = FakePHY(ps, geom.addressbits, geom.bankbits)
+        pm = core.get("phy_model")
+        if pm is not None:
+            # the bundled simulation PHY/DRAM model is the PHY (C19 controller-driven traces); tiny geometries keep A10 on the bus
+            from litedram.phy.model import SDRAMPHYModel
+            geom.addressbits = max(11, geom.addressbits, geom.colbits + (1 if geom.colbits > 10 else 0))
+            phy = SDRAMPHYModel(module, settings=ps, we_granularity=pm.get("we_granularity", 8), init=list(pm.get("init") or []),
+                                address_mapping=pm.get("mapping", "ROW_BANK_COL"))
+        else:
+            phy = FakePHY(ps, geom.addressbits, geom.bankbits)
         ctrl = dict(core.get("ctrl", {}))
         self.ctrl = ctrl
         dut = LiteDRAMCore(phy, geom, module.timing_settings, clk_freq, controller_settings=ControllerSettings(**ctrl))
